@@ -94,6 +94,9 @@ Definition py_range (a b s : Z) : res (list Z) :=
     if 100000 <? n then Err (EUnmodelled "huge range")
     else Ok (map (fun k => a + Z.of_nat k * s) (seq 0 (Z.to_nat n))).
 
+(* a boolean parameter / index is emitted as 0 / 1 *)
+Definition num_of_bool (v : pyval) : pyval := match v with VBool b => VInt (if b then 1 else 0) | _ => v end.
+
 Definition as_index (v : pyval) : M Z :=
   match v with
   | VInt z => ret z
@@ -447,7 +450,8 @@ Definition resolve_one (q : qarg) (size_map : list (string * Z)) (is_q : bool) :
     | QIdx _ (IdxList [] :: _) => ierr KIndex
     | QIdx _ (IdxList (IRange a b c :: _) :: _) => range_ids a b c size
     | QIdx _ (IdxList (IExpr e :: _) :: _) =>
-        v <- eval0 e false None;; i <- as_index v;; validate_index i size;;; ret [i]
+        (* a boolean index is the integer 0 / 1 *)
+        v <- eval0 e false None;; i <- as_index (num_of_bool v);; validate_index i size;;; ret [i]
     end;;
   if alias then
     match ids with
@@ -681,14 +685,19 @@ Definition visit_classical_decl (t : ctype) (name : string) (init : option expr)
   end;;;
   let k := kind_of_ctype t in
   let is_bit := match t with TBit _ => true | _ => false end in
-  '(val, stmts) <-
+  '(val, stmts, folded) <-
      match init with
-     | None => ret ((if is_bit then VVBits sz else VVNone), [])
+     | None => ret ((if is_bit then VVBits sz else VVNone), [], None)
      | Some (EArrayLit _) => unm "array initialiser"
      | Some e =>
          '(iv, stmts) <- eval e false None;;
          cv <- assign_value k (Some sz) iv;;
-         ret (VVScalar cv, stmts)
+         (* the initialiser a bit declaration is emitted with: a literal stays, anything else is folded to its value *)
+         let lit := match e, iv with
+                    | ELit (VInt _), _ | ELit (VBool _), _ => Some e
+                    | _, _ => Some (ELit iv)
+                    end in
+         ret (VVScalar cv, stmts, lit)
      end;;
   s <- getst;;
   putres (add_var s name (mkVar k (Some sz) (Some (if is_bit then [sz] else [])) val false is_bit false));;;
@@ -701,7 +710,7 @@ Definition visit_classical_decl (t : ctype) (name : string) (init : option expr)
       let s := level_add s name in
       with_modc s (sset name sz (mod_cregs s)) (num_clbits s + sz));;;
     let lit := match t with TBit None => 1 | _ => sz end in
-    emit (stmts ++ [SClassicalDecl (TBit (Some (ELit (VInt lit)))) name init])
+    emit (stmts ++ [SClassicalDecl (TBit (Some (ELit (VInt lit)))) name folded])
   else emit stmts
   end.
 
@@ -914,8 +923,6 @@ Definition unroll_targets (qubits : list qarg) (count : nat) : M (list (list bit
 Definition update_depth_for_gate (targets : list (list bitref)) : M unit :=
   iterM depth_gate_subset targets.
 
-(* a boolean parameter is emitted as 0 / 1 *)
-Definition num_of_bool (v : pyval) : pyval := match v with VBool b => VInt (if b then 1 else 0) | _ => v end.
 Definition get_op_parameters (args : list expr) : M (list pyval) :=
   mapMM (fun e => v <- eval0 e false None;; ret (num_of_bool v)) args.
 
